@@ -197,6 +197,18 @@ func (rd *Round) Case33() gen.Case {
 			EncEvents(rd.Preview.Events), pverr, EncShards(rd.ModelShards(rd.AfterPv)),
 			EncEvents(rd.Force.Events), fcerr, EncShards(rd.ModelShards(rd.After)))
 		c.Class = rd.Kind + ":" + kinds(rd.Preview.Events) + ":" + pverr
+		if rd.Kind == "sync" {
+			// a wanted repository whose own shard path is announced for removal: "moved, same name"
+			for _, d := range rd.Desired {
+				for _, e := range rd.Preview.Events {
+					if e.Kind == "WR" && e.Path == ShardPath(rd.World.Index, d.Name, 0) {
+						c.Class += "+moved"
+						goto counted
+					}
+				}
+			}
+		counted:
+		}
 	} else {
 		// discovery fails / the index directory is refused: both runs must fail alike and change nothing
 		c.Class = rd.Kind + ":refused"
